@@ -64,10 +64,10 @@ add("C16", "TestC16", level="fault_enumeration",
           "Oracle: a terminal result within N+3 Reads (N = length of the fault-free transcript), repeated unchanged by two "
           "further Reads; all earlier results except possibly the last equal the fault-free results (kind, JSON, checksum). "
           "evaluations counts inputs; counters.fault_positions counts transform runs. Non-trivial: input with >= 2 results and > 2 bytes "
-          "(so faults fall strictly inside); distinct by SHA-256 of the serialised case. exhaustive per input, not globally. About 12 % of the cases take one of the repository's own sample schemas with (the first 4 KiB of) its sample input as subject instead of a generated shape (class repo-sample)."),
-    quick={"checks": 400, "shards": 4, "timeout": 600},
+          "(so faults fall strictly inside); distinct by SHA-256 of the serialised case. exhaustive per input, not globally. About 12 % of the cases take one of the repository's own sample schemas with (the first 4 KiB of) its sample input as subject instead of a generated shape (class repo-sample). A quarter of the generated subjects are declaration hierarchies as in C05 (edi / csv2 / fixedlength2 with groups, rows-based and header/footer records, min/max; class hierarchy)."),
+    quick={"checks": 600, "shards": 4, "timeout": 600},
     thorough={"checks": 6000, "shards": 16, "timeout": 3000},
-    floors={"repo-sample": 0.04, "transient": 0.3, "format=csv": 0.05, "format=edi": 0.05, "format=xml": 0.05, "format=json": 0.05,
+    floors={"hierarchy": 0.08, "repo-sample": 0.04, "transient": 0.3, "format=csv": 0.05, "format=edi": 0.05, "format=xml": 0.05, "format=json": 0.05,
             "format=fixed-length": 0.05, "format=fixedlength2": 0.05, "format=csv2": 0.05, "std-error-value": 0.2, "bufio-reader": 0.1},
     assumptions=["a run in which the transform never reads as far as the fault must equal the fault-free run; once the fault was reached, a clean "
                  "io.EOF is NOT accepted as terminal result (the failure would be swallowed and the rest of the input silently missing)"],
@@ -108,10 +108,10 @@ add("C15", "TestC15",
           "sub-record value) of one record is modified. Oracle: byte-identical Read output, error text and checksums for first run / "
           "run after the other transforms / fresh process; equal raw records <=> equal checksums on the observed set; the modified "
           "record's checksum changes and no other record's does. Non-trivial: >= 2 records, output object with >= 3 keys and >= 1 other "
-          "transform before the measured one; distinct by SHA-256 of the case. About 12 % of the cases take one of the repository's own sample schemas with (the first 4 KiB of) its sample input as subject instead of a generated shape (class repo-sample)."),
+          "transform before the measured one; distinct by SHA-256 of the case. About 12 % of the cases take one of the repository's own sample schemas with (the first 4 KiB of) its sample input as subject instead of a generated shape (class repo-sample). History steps also include: the process builds an Extension the documented way (customfuncs.Merge of the common, the omni.2.1 and own functions that shadow builtins) and runs a transform through it; one transformctx.Ctx value handed to the other transforms and to the second measured run (each under its own input name)."),
     quick={"checks": 250, "shards": 4, "timeout": 600},
     thorough={"checks": 3000, "shards": 16, "timeout": 3000},
-    floors={"repo-sample": 0.04, "warmed": 0.5, "fresh-process": 0.2, "leaf-mutation": 0.2},
+    floors={"own-extension-in-history": 0.1, "ctx-value-reused": 0.15, "repo-sample": 0.04, "warmed": 0.5, "fresh-process": 0.2, "leaf-mutation": 0.2},
     assumptions=["'now' and random scripts are never generated (excluded by the property)",
                  "leaf mutations are restricted to declared columns / elements, which the raw record is documented to carry"])
 
@@ -120,17 +120,20 @@ add("C17", "TestC17",
           "records) cycled k times, k from {50..400} mostly, 2000 (8%), 20000 (2%); optional insignificant separators between records "
           "(blank lines / whitespace). Oracle: size(i) = node count of the whole tree reachable via Parent links from the i-th delivered "
           "record; max size <= max over the first 8 deliveries + one record; the 2k-record input shows the same maximum as the k-record "
-          "input. Live-heap arm (10% of cases): the pool cycled 5k times (k 1000-2500), live heap (runtime.MemStats.HeapAlloc after two forced "
-          "collections) sampled after k Reads and after the terminal result with the Transform still alive: growth <= 1 MiB (a few hundred "
-          "bytes retained per record is >= 10x above, the unchanged code's growth, see counters.heap_arm_growth_bytes, >= 30x below). "
+          "input. Live-heap arm (14% of cases; xml shapes there mostly with namespace declarations on the record elements, fixedlength2 shapes "
+          "half of the time multi-row): the pool cycled 5k times (k 1000-2500), live heap (runtime.MemStats.HeapAlloc after two forced "
+          "collections) sampled every k Reads and after the terminal result with the Transform still alive. Violation: growth between the "
+          "first and the last sample > 64 KiB AND > 21 KiB in each half of the samples (a retention per record grows in both halves - 16 "
+          "bytes per record suffice at k=1000 -, a cache filling up shows in one; the unchanged code stays under 16 KiB per case, see "
+          "counters.heap_arm_growth_bytes / heap_arm_growth_over_16KiB). "
           "Non-trivial: >= 50 delivered records with filtered-out candidates between deliveries (tree arms), >= 1000 delivered records "
           "(heap arm); distinct by SHA-256 of the case."),
     quick={"checks": 150, "shards": 4, "timeout": 900},
     thorough={"checks": 1500, "shards": 16, "timeout": 3300},
-    floors={"filtered-candidates": 0.3, "sep=1": 0.3, "k>=2000": 0.03, "arm=live-heap": 0.05},
+    floors={"filtered-candidates": 0.25, "sep=1": 0.3, "k>=2000": 0.03, "arm=live-heap": 0.08},
     assumptions=["tree arms: only the size of the reachable node tree is a verdict",
-                 "live-heap arm: one rapid goroutine per process, nothing else allocates between the two samples; the 1 MiB slack is far "
-                 "above allocator noise (tens of KB) and far below any per-record retention over >= 4000 records"])
+                 "live-heap arm: one rapid goroutine per process, nothing else allocates between the samples; the slack (64 KiB in total and "
+                 "21 KiB in each half) is 4x above the largest growth ever measured on the unchanged code (< 16 KiB per case over ~700 cases)"])
 
 add("C18", "TestC18",
     rule=("Cases: gen.Shape input (7 formats) whose field values carry code points 0x80..0xFF (biased to 0x80-0x9F and the five bytes "
@@ -138,7 +141,7 @@ add("C18", "TestC18",
           "BOM); delivered in one chunk or byte by byte. Oracle: transcript(bytes, encoding X) = transcript(code page table applied to "
           "the bytes, utf-8) with the tables hard-coded in the harness (unassigned cp1252 bytes: U+FFFD or the C1 control accepted); "
           "utf-8: omitted encoding = utf-8, leading BOM changes nothing and never appears in output. Non-trivial: the input has a byte "
-          ">= 0x80 (or a BOM) and >= 1 record is delivered; distinct by SHA-256 of the case."),
+          ">= 0x80 (or a BOM) and >= 1 record is delivered; distinct by SHA-256 of the case. A third of the XML inputs start with an XML declaration carrying its own encoding label (ISO-8859-1, windows-1252, latin1, UTF-8, utf8, us-ascii), applied by the xml decoder on both sides of the relation."),
     quick={"checks": 1500, "shards": 4, "timeout": 600},
     thorough={"checks": 12000, "shards": 16, "timeout": 3000},
     floors={"enc=iso-8859-1": 0.25, "enc=windows-1252": 0.25, "enc=utf-8": 0.2, "bytes-80-9F": 0.4, "bom": 0.08},
@@ -275,7 +278,7 @@ add("C11", "TestC11",
           "is evaluated by idr.QueryIter over the stream reader's tree, by antchfx/xmlquery (normalised) and by a second reference "
           "navigator; results compared as lists of (address, kind, qualified name, string value); MatchAll/MatchAny/MatchSingle must "
           "agree with the iterator. Non-trivial: >= 2 top-level steps, uses an attribute axis, a reverse/sibling axis or a positional "
-          "predicate, and selects >= 1 node; distinct by SHA-256 of the case."),
+          "predicate, and selects >= 1 node; distinct by SHA-256 of the case. MatchAll is evaluated with the expression cache off and on (same selection); literals and text values include runs of blanks, a tab and line breaks."),
     quick={"checks": 25000, "shards": 4, "timeout": 600},
     thorough={"checks": 1000000, "shards": 16, "timeout": 3300},
     floors={"non-empty": 0.5, "attribute-axis": 0.2, "reverse-or-sibling-axis": 0.2, "non-empty+attribute-axis": 0.1,
@@ -297,12 +300,12 @@ add("C12", "TestC12", race=True, note_current=True,
           "test TestC12Churn, which runs on the plain build because sync.Pool drops Puts at random under -race) checks blankness and "
           "that no ID of the history is ever handed out again. Non-trivial: "
           "(ops) a non-root removal followed by an acquisition that returns a pointer released earlier, (reader) >= 2 records and an "
-          "observed pool re-use, (conc) always; distinct by SHA-256 of the case."),
+          "observed pool re-use, (conc) always; distinct by SHA-256 of the case. A third arm-let (3 %, kind=jsonvalues) drives the JSON stream reader by hand over several top-level values with root-selecting and child-selecting xpaths and audits every tree it hands out; TestC12Churn also floods the pool (a tree of 1100-33000 nodes released at once, then that many + 500 acquisitions: no node handed out twice)."),
     quick={"checks": 2500, "shards": 4, "timeout": 900, "gomaxprocs": 8,
            "extra": [{"test": "TestC12Churn", "checks": 60, "shards": 2, "plain": True}]},
     thorough={"checks": 40000, "shards": 16, "timeout": 3300, "gomaxprocs": 8,
               "extra": [{"test": "TestC12Churn", "checks": 600, "shards": 4, "plain": True}]},
-    floors={"ops:reuse-after-nonroot-removal": 0.4, "kind=reader": 0.05, "kind=conc": 0.01, "churn>=65536": 0.005},
+    floors={"kind=jsonvalues": 0.003, "flood": 0.002, "ops:reuse-after-nonroot-removal": 0.4, "kind=reader": 0.05, "kind=conc": 0.01, "churn>=65536": 0.005},
     assumptions=["ID uniqueness is checked within one case (the check is a pure function of the case); across cases the atomic counter is "
                  "exercised by the concurrent arm under the race detector",
                  "the post-EOF Read goes slightly beyond what Transform does (it never re-reads after a terminal result)"])
@@ -346,7 +349,7 @@ add("C05", "TestC05", note_current=True,
           "reads into the delivered tree. Oracle: model.Greedy (recursive greedy non-backtracking matcher incl. the EDI top-level "
           "repetition pinned by the repo's test) - same target trees from RawRecord().Raw(), same count, same terminal kind, same copy() "
           "JSON; EDI tokenizer observed directly. Thorough tier adds TestC05Enum: per drawn hierarchy ALL unit sequences up to length 6 "
-          "over its alphabet plus X. Non-trivial: the model makes >= 1 move-on decision and >= 1 repeat; distinct by SHA-256 of the case."),
+          "over its alphabet plus X. Non-trivial: the model makes >= 1 move-on decision and >= 1 repeat; distinct by SHA-256 of the case. Every case is also delivered byte by byte (final byte together with io.EOF): same outcome as the whole input. fixedlength2 hierarchies in 40 % of the cases start every line with 1 or 3 pad characters and write their header/footer/line_pattern regexes without the '^' anchor."),
     quick={"checks": 2500, "shards": 4, "timeout": 900},
     thorough={"checks": 60000, "shards": 16, "timeout": 3300, "extra": [{"test": "TestC05Enum", "checks": 25, "shards": 16}]},
     floors={"outcome=fatal": 0.30, "target-in-group": 0.20, "format=edi": 0.15, "format=csv2": 0.15, "format=fixedlength2": 0.15,
@@ -418,10 +421,10 @@ add("C20", "TestC20", race=True, note_current=True,
           "_node scripts; arguments strings, ints, floats, bools; nodes mutated between calls. Oracle: each result equals the same "
           "script on a brand-new goja runtime created in the harness with _node = idr.JSONify2(node now): error <=> error, equal JSON. "
           "Built with -race. Non-trivial: a call probes a name that an earlier call on the same goroutine/transform set, or a _node call "
-          "hits a node whose JSON differs from its previous _node call; distinct by SHA-256 of the case."),
+          "hits a node whose JSON differs from its previous _node call; distinct by SHA-256 of the case. One call in eight with arguments has an ill-formed argument list (a non-string argument name after 0-2 well-formed pairs): the call must fail and nothing of it may reach a later call (class ill-formed-argument-list)."),
     quick={"checks": 300, "shards": 4, "timeout": 900, "gomaxprocs": 8},
     thorough={"checks": 8000, "shards": 16, "timeout": 3300, "gomaxprocs": 8},
-    floors={},
+    floors={"ill-formed-argument-list": 0.15, },
     assumptions=["scripts that assign globals (incl. top-level var), loop, or use Date/Math.random are excluded by the statement",
                  "the error classification of the reference is done in JavaScript inside the fresh runtime"])
 
